@@ -307,10 +307,11 @@ def step (pt : Product) (w : World) : Event → World × List Out
     | .error _ => (w, [.decodeError])
     | .ok (.unavailable, _) => (w, [])
     | .ok (.val profile blocks, _) =>
-      let eco := w.ecomax.filter (fun x => !(x.name == Gen.thermostatProfile.name))
+      -- `_add_thermostat_profile_parameter`: `create_or_update` (in place since fix 1abb9cb); an undefined
+      -- profile slot stores None under the name: the parameter is gone from the dataset
       let eco := match profile with
-        | some t => newEntry .profile Gen.thermostatProfile 0 (tr t) 0 0 :: eco
-        | none => eco
+        | some t => upsert w.ecomax w.ecomax (newEntry .profile Gen.thermostatProfile 0 (tr t) 0 0)
+        | none => w.ecomax.filter (fun x => !(x.name == Gen.thermostatProfile.name))
       ({ w with ecomax := eco, thermostats := applyThermostats w.thermostats blocks }, [])
   | .schedules msg =>
     match P2.decodeSched msg with
